@@ -10,3 +10,6 @@ pub mod stubs;
 #[cfg(kani)]
 #[path = "../../common/tracing_stubs.rs"]
 pub mod tracing_stubs;
+
+#[cfg(kani)]
+mod c07_mime;
